@@ -35,9 +35,11 @@ Inductive op :=
  | BComma
  | BAssign | BAddAssign | BSubAssign | BMulAssign | BDivAssign | BRemAssign | BPowAssign
  | BShlAssign | BShrAssign | BUShrAssign | BBitOrAssign | BBitAndAssign | BBitXorAssign
- | BNullishAssign | BLogOrAssign | BLogAndAssign.
+ | BNullishAssign | BLogOrAssign | BLogAndAssign
+ | UAwait.  (* not a js_ast.OpCode: EAwait, which printExpr treats like a keyword prefix operator of level LPrefix *)
 
-Definition all_ops : list op :=
+(* the operators of js_ast.OpTable, in OpCode order *)
+Definition table_ops : list op :=
  [UPos; UNeg; UCpl; UNot; UVoid; UTypeof; UDelete; UPreDec; UPreInc; UPostDec; UPostInc;
   BAdd; BSub; BMul; BDiv; BRem; BPow; BLt; BLe; BGt; BGe; BIn; BInstanceof;
   BShl; BShr; BUShr; BLooseEq; BLooseNe; BStrictEq; BStrictNe;
@@ -45,6 +47,7 @@ Definition all_ops : list op :=
   BAssign; BAddAssign; BSubAssign; BMulAssign; BDivAssign; BRemAssign; BPowAssign;
   BShlAssign; BShrAssign; BUShrAssign; BBitOrAssign; BBitAndAssign; BBitXorAssign;
   BNullishAssign; BLogOrAssign; BLogAndAssign].
+Definition all_ops : list op := table_ops ++ [UAwait].
 
 (* js_ast.OpCode value: position in all_ops (UnOpPos = 0 ... ) *)
 Fixpoint index_of (eqb : op -> op -> bool) (o : op) (l : list op) (i : Z) : Z :=
@@ -63,18 +66,19 @@ Definition op_str (o : op) : string :=
   | BRemAssign => "%=" | BPowAssign => "**=" | BShlAssign => "<<=" | BShrAssign => ">>="
   | BUShrAssign => ">>>=" | BBitOrAssign => "|=" | BBitAndAssign => "&=" | BBitXorAssign => "^="
   | BNullishAssign => "??=" | BLogOrAssign => "||=" | BLogAndAssign => "&&="
+  | UAwait => "await"
   end%string.
 Definition op_text (o : op) : list Z := zs (op_str o).
 
 Inductive okind := KPre | KPost | KBin.
 Definition op_kind (o : op) : okind :=
   match o with
-  | UPos | UNeg | UCpl | UNot | UVoid | UTypeof | UDelete | UPreDec | UPreInc => KPre
+  | UPos | UNeg | UCpl | UNot | UVoid | UTypeof | UDelete | UPreDec | UPreInc | UAwait => KPre
   | UPostDec | UPostInc => KPost
   | _ => KBin
   end.
 Definition op_is_keyword (o : op) : bool :=
-  match o with UVoid | UTypeof | UDelete | BIn | BInstanceof => true | _ => false end.
+  match o with UVoid | UTypeof | UDelete | BIn | BInstanceof | UAwait => true | _ => false end.
 
 (* js_ast.L as a number: LLowest = 0 ... LMember = 22 *)
 Definition LLowest := 0. Definition LComma := 1. Definition LYield := 3. Definition LAssign := 4. Definition LConditional := 5.
@@ -86,7 +90,7 @@ Definition LPrefix := 18. Definition LPostfix := 19. Definition LNew := 20. Defi
 
 Definition op_level (o : op) : Z :=
   match o with
-  | UPos | UNeg | UCpl | UNot | UVoid | UTypeof | UDelete | UPreDec | UPreInc => LPrefix
+  | UPos | UNeg | UCpl | UNot | UVoid | UTypeof | UDelete | UPreDec | UPreInc | UAwait => LPrefix
   | UPostDec | UPostInc => LPostfix
   | BAdd | BSub => LAdd
   | BMul | BDiv | BRem => LMultiply
@@ -112,7 +116,7 @@ Definition op_eqb (a b : op) : bool :=
   | BMulAssign, BMulAssign | BDivAssign, BDivAssign | BRemAssign, BRemAssign | BPowAssign, BPowAssign
   | BShlAssign, BShlAssign | BShrAssign, BShrAssign | BUShrAssign, BUShrAssign | BBitOrAssign, BBitOrAssign
   | BBitAndAssign, BBitAndAssign | BBitXorAssign, BBitXorAssign | BNullishAssign, BNullishAssign
-  | BLogOrAssign, BLogOrAssign | BLogAndAssign, BLogAndAssign => true
+  | BLogOrAssign, BLogOrAssign | BLogAndAssign, BLogAndAssign | UAwait, UAwait => true
   | _, _ => false
   end.
 Definition op_code (o : op) : Z := index_of op_eqb o all_ops 0.
@@ -286,17 +290,24 @@ Definition tgt_level (level : Z) : Z := if level =? LNew then LNew else LPostfix
    last branch of an unparenthesised conditional, and dropped everywhere else (parentheses, unary
    operands, member/call targets, index, arguments, the middle branch of a conditional). *)
 Definition is_in (e : expr) : bool := match e with EBin o _ _ => op_eqb o BIn | _ => false end.
-Fixpoint print_items (mw : bool) (fi : bool) (level : Z) (e : expr) : list item :=
+(* ss = "p.stmtStart == len(p.js)": nothing has been printed since the start of an expression statement.
+   The flag reaches the leftmost operand as long as nothing (no parenthesis, no prefix operator) is
+   printed in front of it.  Its only effect on the fragment (fix ac301ad): an index access on the
+   identifier "let" in that position is printed as "(let)[...]", because an expression statement
+   cannot start with "let [". *)
+Definition is_let (e : expr) : bool := match e with EId s => zlist_eqb s [108; 101; 116] | _ => false end.
+Fixpoint print_items (mw : bool) (fi ss : bool) (level : Z) (e : expr) : list item :=
   match e with
   | EId s => [IId s]
   | ENum s => [INum s]
   | ERe b f => [IRe b f]
-  | EDot t s => print_items mw false (tgt_level level) t ++ [IDot s]
+  | EDot t s => print_items mw false ss (tgt_level level) t ++ [IDot s]
   | EUn o v =>
-      paren (level >=? op_level o)
+      let wrap := level >=? op_level o in
+      paren wrap
         (match op_kind o with
-         | KPost => print_items mw false (LPostfix - 1) v ++ [IOp o]
-         | _ => [IOp o] ++ print_items mw false (LPrefix - 1) v
+         | KPost => print_items mw false (ss && negb wrap) (LPostfix - 1) v ++ [IOp o]
+         | _ => [IOp o] ++ print_items mw false false (LPrefix - 1) v
          end)
   | EBin o l r =>
       let lv := op_level o in
@@ -310,23 +321,26 @@ Fixpoint print_items (mw : bool) (fi : bool) (level : Z) (e : expr) : list item 
         else if is_left_assoc o then lv else lv - 1 in
       let wrap := (level >=? lv) || (op_eqb o BIn && fi) in
       let fb := fi && negb wrap in
-      paren wrap (print_items mw fb left_level l ++ [IOp o] ++ print_items mw fb right_level r)
+      paren wrap (print_items mw fb (ss && negb wrap) left_level l ++ [IOp o] ++ print_items mw fb false right_level r)
   | ECond c y n =>
       let wrap := level >=? LConditional in
       let fb := fi && negb wrap in
       paren wrap
-        (print_items mw fb LConditional c ++ [IQuest] ++ print_items mw false LYield y ++ [IColon] ++ print_items mw fb LYield n)
-  | EIndex t i => print_items mw false (tgt_level level) t ++ [ILBrack] ++ print_items mw false LLowest i ++ [IRBrack]
+        (print_items mw fb (ss && negb wrap) LConditional c ++ [IQuest] ++ print_items mw false false LYield y ++ [IColon] ++ print_items mw fb false LYield n)
+  | EIndex t i =>
+      paren (ss && is_let t) (print_items mw false ss (tgt_level level) t) ++ [ILBrack] ++ print_items mw false false LLowest i ++ [IRBrack]
   | ECall f a =>
-      paren (level >=? LNew) (print_items mw false LPostfix f ++ [ICallOpen] ++ print_items mw false LComma a ++ [IClose])
+      let wrap := level >=? LNew in
+      paren wrap (print_items mw false (ss && negb wrap) LPostfix f ++ [ICallOpen] ++ print_items mw false false LComma a ++ [IClose])
   | ENew f a =>
       paren (level >=? LCall)
-        ([INew] ++ print_items mw false LNew f ++
+        ([INew] ++ print_items mw false false LNew f ++
          (if negb mw || has_args a || (level >=? LPostfix)
-          then [ICallOpen] ++ print_items mw false LComma a ++ [IClose] else []))
+          then [ICallOpen] ++ print_items mw false false LComma a ++ [IClose] else []))
   | ANil => []
   | ACons x rest =>
-      print_items mw false LComma x ++ (match rest with ACons _ _ => [IOp BComma] ++ print_items mw false LComma rest | _ => [] end)
+      print_items mw false false LComma x ++ (match rest with ACons _ _ => [IOp BComma] ++ print_items mw false false LComma rest | _ => [] end)
   end.
 
-Definition print_expr (mw fi : bool) (e : expr) : list Z := render mw st0 (print_items mw fi LLowest e).
+(* ss = true for an expression statement, false for the initialiser of a for loop *)
+Definition print_expr (mw fi ss : bool) (e : expr) : list Z := render mw st0 (print_items mw fi ss LLowest e).
